@@ -7,7 +7,7 @@ props = [json.loads(l) for l in open(V + "/properties.jsonl")]
 checks = json.load(open(V + "/checks.json"))
 
 TEXT = {
- "C01": ("rapid property test: generated struct types (reflect.StructOf) x defaults x 0-5 partial layers against a pure stacking model located by field name, plus two metamorphic relations; compiled types through Config[T] with interleaved static / watching sources, in-place re-reports and watchers that finish early; inputs whose leaves share storage",
+ "C01": ("rapid property test: generated struct types (reflect.StructOf) x defaults x 0-5 partial layers against a pure stacking model located by field name, plus two metamorphic relations; compiled types through Config[T] with interleaved static / watching sources, in-place re-reports and watchers that finish early; inputs whose leaves share storage; pointer-to-func / pointer-to-chan fields between leaves",
          "Every generated case is stacked by the real compose and compared leaf by leaf with an independent reference model; exploration is bounded (depth<=3, <=8 fields/struct, <=5 layers) and sampled, so it shows absence of violations only on the explored cases."),
  "C02": ("rapid property tests: address-range disjointness + scribble-and-recheck + stack-twice on reflect-built types through compose and on a compiled type through a real Dials with fake watchers; first use of a type from several goroutines; slots of an interface type with methods holding reference implementations; rejected configs collected from OnWatchedError stay isolated and are never installed",
          "Aliasing is invisible to value assertions; the check walks addresses of every pointer/map/slice backing array and also overwrites one version and re-checks all others. Sampled, bounded shapes and histories (<=8 re-stacks)."),
@@ -15,7 +15,7 @@ TEXT = {
          "Graphs of up to 8 nodes with arbitrary edges through every container kind, copied by the deep copier directly, by Config and by a re-stack; process-fatal stack overflows are caught through the per-case journal."),
  "C04": ("rapid stateful histories inside a testing/synctest bubble against an exact reference model; the monitor is parked at schedule points (inside Verify, after the store) while readers look",
          "Every step of a generated history (valid/invalid updates x Skip/Delay options) is compared with a model: rejected updates never stored, view/serial unchanged, error routed to the blocking caller and to OnWatchedError, candidate invisible while Verify runs. Sampled histories (<=14 ops), schedule windows forced by hooks rather than enumerated."),
- "C05": ("rapid stateful histories inside a synctest bubble; oracle = pure reference stack of each source's latest value after every step + store log from a schedule point (serial = predecessor + 1); histories that overflow the callback queue (a monitor that stops stacking deadlocks the bubble); reports racing Events readers; the caller overwriting its defaults after Config",
+ "C05": ("rapid stateful histories inside a synctest bubble; oracle = pure reference stack of each source's latest value after every step + store log from a schedule point (serial = predecessor + 1); histories that overflow the callback queue (a monitor that stops stacking deadlocks the bubble); reports racing Events readers; the caller overwriting its defaults after Config; deeply equal watcher objects",
          "Exact comparison after synctest quiescence at every step of histories up to 25 ops from up to 3 sources; interleavings are sequentialised by the harness (plus forced windows), not enumerated."),
  "C06": ("rapid stateful histories inside a synctest bubble; a FIFO model of the callback goroutine predicts the exact global call list; registrations are forced into the store/event window by parking the monitor at a schedule point, slow callbacks park the callback goroutine; overflow histories check that delivered versions are never reordered",
          "The whole ordered list of callback invocations (who, old, new by pointer identity) must equal the model's at every quiescent point; both race orders of store / registration / event are generated deliberately. Bounded histories, queue kept below the documented overflow."),
